@@ -7,7 +7,7 @@ HERE = os.path.dirname(os.path.abspath(__file__))
 TECH = "bounded model checking of the compiled Rust code: Kani 0.68 / CBMC 6.11 (CaDiCaL) over #[kani::proof] harnesses with kani::any() inputs"
 TECH_MIR = TECH + "; plus path-exploring symbolic execution of the rustc MIR of the real functions with z3 (mirsym)"
 MIR_ONLY = "path-exploring symbolic execution of the rustc MIR of the real functions (cargo +nightly rustc -Zunpretty=mir) with z3 deciding branch feasibility and the per-path obligations (mirsym)"
-MIRSYM = ("C01", "C11", "C04", "C19", "C18", "C02", "C08", "C09", "C05", "C12", "C20", "C07", "C16", "C13", "C03")
+MIRSYM = ("C01", "C11", "C04", "C19", "C18", "C02", "C08", "C09", "C05", "C12", "C20", "C07", "C16", "C13", "C03", "C10")
 MIR_ONLY_PROPS = ("C07", "C08", "C09")
 
 CLAIMS = {
@@ -38,8 +38,8 @@ CLAIMS = {
  "C09": ("mirsym: the real SingleExecMatcher::{new,matches} behind '-exec[dir] cmd T1 T2 ; -print' (parsed by the real parser) in the real process_dir loop: one run per reached file; argv = cmd followed by each template with every {} replaced by the path (./basename for -execdir, run in the file's directory), for all pairs of templates from a 7-word vocabulary ({} alone, embedded, twice, absent, empty) and file names with blanks, quotes, braces, leading dash; the action is true iff the child exits 0 (observed through the following -print); a failing or unstartable command does not change find's status.",
          "std::process::Command, str::split / [OsString]::join / std::path (on concrete text), walkdir are natives/models; byte-exactness of argv beyond text equality (no word splitting is possible in the modelled Command::arg) and non-UTF-8 names are outside.",
          "4 C09"),
- "C10": ("-delete's decision for every entry kind: exactly one removal call on the entry's own path, rmdir iff the entry itself (lstat) is a directory under every follow mode and link kind, failure => false and exit status 1, success => true, '.' skipped; -delete is an action.",
-         "remove_dir/remove_file/stat/lstat are a symbolic world under the kernel's contract. 'Only entries for which EXPR is true' = And short-circuit (C01 step); children-before-parent = walkdir's contents_first (requested: C02/C03 walk_config); '-delete implies -depth' is set in the parser (not covered).",
+ "C10": ("-delete's decision for every entry kind: exactly one removal call on the entry's own path, rmdir iff the entry itself (lstat) is a directory under every follow mode and link kind, failure => false and exit status 1, success => true, '.' skipped; -delete is an action. mirsym (c02_walk, delete mode): the real parser on '-name X -delete', process_dir and DeleteMatcher over a port of walkdir's iterator and a model file system, X selecting any subset of eight entries, -P and -L: the sequence of unlink/rmdir calls is exactly the selected entries in post-order (links unlinked - also a link to a directory that -L descends -, a directory removed only when nothing is left in it), everything else is left alone, -delete implies -depth, the status is non-zero iff a removal failed or an entry was diagnosed, and the walk goes on after a failure.",
+         "remove_dir/remove_file/stat/lstat are a symbolic world under the kernel's contract. 'Only entries for which EXPR is true' = And short-circuit (C01 step); children-before-parent = walkdir's contents_first (requested: C02/C03 walk_config); '-delete implies -depth' is covered by the mirsym run only.",
          "4 C10"),
  "C11": ("Grammar acceptance (mirsym): a token sequence within the bound is accepted iff it is a sentence (dangling operators, '!' without operand, unbalanced/empty parentheses, unknown primary are rejected). No panic and accept/reject per the documented sets for the leaf operand parsers (Kani): -printf format leaves (advance_one, peek, advance_by, escape sequences; ASCII and 2-byte UTF-8 at any position), -type/-xtype letters, -size unit suffix, -perm prefix, xargs -d operand.  Kani checks every reachable panic/overflow/slice index in all harnesses of this suite for the code they execute.",
          "Kani: leaves only. mirsym: build_matcher_tree accepts exactly the sentences of the grammar for all token sequences of length <= 4 over the vocabulary (operators, parentheses, '!', eight operand-free primaries, one unknown word) and never panics there. mirsym c11_operands: 21 operand-taking primaries (incl. -newerXY spellings with junk) x 26 operand words (valid, near-miss, huge, empty) for sequences of 1..2 tokens (3 over a reduced vocabulary): accepted iff in the grammar with a valid operand; missing operands rejected; the regex crate is modelled by Python re on the pattern text in the MIR. Known finding F-C11-newer-prefix. -perm/-user/-group/-regex/-exec operands (uucore, FFI, onig), 'rejected before any file is visited' (do_find) are NOT covered.",
